@@ -190,12 +190,51 @@ fn big<A: Abc, C: PositiveLength, P: Score<f32, A, C>>(rec: &mut Recorder, pli: 
     }
 }
 
+/// The way a user gets there: text -> EncodedSequence -> to_striped() / Pipeline::stripe (whatever kernel the host
+/// selects, or the arm forced) -> configure -> ScoringMatrix::score, for lengths that reach the 32x32 tiles of the vector
+/// striping kernel (L >= 1024) once, twice and three times.
+fn user_path<A: Abc>(rec: &mut Recorder, rng: &mut impl Rng, l: usize, via: usize)
+where
+    Pipeline<A, lightmotif::pli::dispatch::Dispatch>: Score<f32, A, U32> + lightmotif::pli::Stripe<A, U32>,
+{
+    let m = rng.gen_range(2..=8);
+    let ranks = random_ranks::<A>(rng, l, 0.01);
+    let cells = random_pssm::<A>(rng, m, 0.0, true, 20);
+    let pssm = build_pssm::<A>(&cells);
+    let arm = [None, Some(Arm::Avx2), None, Some(Arm::Sse2)][via % 4];
+    force(arm);
+    let res = guarded(|| {
+        let mut seq: StripedSequence<A, U32> = if via % 2 == 0 {
+            lightmotif::seq::EncodedSequence::<A>::new(A::syms(&ranks)).to_striped()
+        } else {
+            Pipeline::<A, _>::dispatch().stripe(A::syms(&ranks))
+        };
+        seq.configure(&pssm);
+        let s = pssm.score(&seq);
+        (s.matrix().rows(), s.max_index(), cells_of(&s), s.unstripe().iter().map(|&x| grid(x, GS)).collect::<Vec<_>>())
+    });
+    force(None);
+    rec.reset();
+    let r = (l + 31) / 32;
+    let mut o = json!({"ev":"score","be": if via % 2 == 0 { "to_striped" } else { "dispatch_stripe" },"arm":arm_name(arm),"abc":A::NAME,"C":32,"K":A::KK,
+                       "api":"ScoringMatrix::score","seq":ranks,"pssm":cells,"wrap":m - 1,"a":0,"b":r,"full":true});
+    match res {
+        Ok((nrows, max_index, cv, un)) => { o["ret"] = json!("ok"); o["nrows"] = json!(nrows); o["max_index"] = json!(max_index); o["cells"] = json!(cv); o["unstripe"] = json!(un); o["index"] = json!([]); }
+        Err(msg) => { rec.class("panic"); o["ret"] = json!("panic"); o["msg"] = json!(msg); }
+    }
+    rec.class("user_path_long_sequence");
+    rec.nontrivial(&("user_path", A::NAME, l, via));
+    rec.emit(o);
+}
+
 /// ScoringMatrix::score_position over every valid position (scalar path through StripedSequence::index).
 fn score_position<A: Abc, C: PositiveLength>(rec: &mut Recorder, rng: &mut impl Rng, l: usize) {
     let case = gen_case::<A>(rng, l, C::USIZE, 10);
     let m = case.pssm.len();
     let pssm = build_pssm::<A>(&case.pssm);
-    let seq = build_seq::<A, C>(&case.ranks, if rng.gen_bool(0.5) { m - 1 } else { 0 });
+    // look-ahead rows: none, exactly what the motif needs, or FEWER than it needs (a sequence configured for a shorter motif)
+    let wrap = match rng.gen_range(0..4) { 0 => 0, 1 => m - 1, _ => if m >= 3 { rng.gen_range(1..m - 1) } else { 0 } };
+    let seq = build_seq::<A, C>(&case.ranks, wrap);
     let n = if l >= m { l - m + 1 } else { 0 };
     let r = guarded(|| (0..n).map(|i| grid(pssm.score_position(&seq, i), GS)).collect::<Vec<_>>());
     rec.reset();
@@ -289,7 +328,13 @@ pub fn record(rec: &mut Recorder, seed: u64, thorough: bool) {
         big::<Dna, U32, _>(rec, &Pipeline::<Dna, _>::sse2().unwrap(), "sse2", None, &mut r);
         big::<Dna, U32, _>(rec, &Pipeline::<Dna, _>::generic(), "generic", None, &mut r);
     }
-    for l in 0..(if thorough { 120 } else { 50 }) {
+    let longs: Vec<usize> = if thorough { vec![1024, 1025, 1055, 1056, 1088, 1119, 1500, 2047, 2048, 2079, 2080, 3009, 3072, 4100] } else { vec![1024, 1056, 2048, 3009] };
+    for (i, &l) in longs.iter().enumerate() {
+        user_path::<Dna>(rec, &mut r, l, i);
+        user_path::<Dna>(rec, &mut r, l, i + 1);
+        if i % 2 == 0 { user_path::<Protein>(rec, &mut r, l, i + 1); }
+    }
+    for l in (0..(if thorough { 120 } else { 50 })).chain([70usize, 100, 131, 200]) {
         score_position::<Dna, U32>(rec, &mut r, l);
         score_position::<Protein, U32>(rec, &mut r, l);
         score_position::<Dna, U4>(rec, &mut r, l);
